@@ -1,6 +1,7 @@
 //! C06: whatever decodes successfully conforms, re-encodes and re-decodes to itself; truncated
 //! datums are errors. Byte universe BU(n) plus truncations / substitutions of valid encodings.
 
+use crate::ast::S;
 use crate::c01::{lib_decode, lib_encode, Filter};
 use crate::corpus::{self, Sc};
 use crate::ev::{self, guarded, hex, Report, Stats, Tier};
@@ -314,6 +315,139 @@ impl<'de> serde::de::Visitor<'de> for DynVisitor {
     }
 }
 
+thread_local! {
+    /// The schema the next `Guided` target follows (a `Deserialize` type cannot be handed one).
+    static GUIDE: std::cell::RefCell<Option<(S, crate::ast::Env)>> = const { std::cell::RefCell::new(None) };
+}
+
+/// A target shaped like the Rust type a user would write for the schema: wherever the schema has a
+/// two-branch union with `null` it asks for `deserialize_option` (an `Option<T>` field), otherwise it
+/// follows the schema through `deserialize_any`. Only "accepted, and how many bytes" is observed.
+pub struct Guided;
+
+impl<'de> serde::Deserialize<'de> for Guided {
+    fn deserialize<D: serde::Deserializer<'de>>(d: D) -> Result<Guided, D::Error> {
+        GUIDE.with(|g| {
+            let g = g.borrow();
+            let (s, env) = g.as_ref().expect("guide set");
+            serde::de::DeserializeSeed::deserialize(GSeed { s, env }, d).map(|_| Guided)
+        })
+    }
+}
+
+#[derive(Clone, Copy)]
+struct GSeed<'a> {
+    s: &'a S,
+    env: &'a crate::ast::Env,
+}
+
+impl<'de> serde::de::DeserializeSeed<'de> for GSeed<'_> {
+    type Value = ();
+    fn deserialize<D: serde::Deserializer<'de>>(self, d: D) -> Result<(), D::Error> {
+        match self.s {
+            S::Ref(n) => match self.env.get(n) {
+                Some(t) => GSeed { s: t, env: self.env }.deserialize(d),
+                None => <Dyn as serde::Deserialize>::deserialize(d).map(|_| ()),
+            },
+            S::Union(bs) if bs.len() == 2 && bs.iter().any(|b| matches!(b, S::Null)) => d.deserialize_option(self),
+            S::Array(_) | S::Map(_) | S::Record { .. } => d.deserialize_any(self),
+            _ => <Dyn as serde::Deserialize>::deserialize(d).map(|_| ()),
+        }
+    }
+}
+
+macro_rules! unit_scalar {
+    ($($f:ident: $t:ty),*) => { $(fn $f<E: serde::de::Error>(self, _: $t) -> Result<(), E> { Ok(()) })* };
+}
+
+impl<'de> serde::de::Visitor<'de> for GSeed<'_> {
+    type Value = ();
+    fn expecting(&self, f: &mut std::fmt::Formatter) -> std::fmt::Result {
+        f.write_str("what the schema says")
+    }
+    unit_scalar!(visit_bool: bool, visit_i64: i64, visit_u64: u64, visit_i128: i128, visit_u128: u128, visit_f32: f32, visit_f64: f64, visit_char: char, visit_str: &str, visit_bytes: &[u8]);
+    fn visit_none<E: serde::de::Error>(self) -> Result<(), E> {
+        Ok(())
+    }
+    fn visit_unit<E: serde::de::Error>(self) -> Result<(), E> {
+        Ok(())
+    }
+    fn visit_some<D: serde::Deserializer<'de>>(self, d: D) -> Result<(), D::Error> {
+        use serde::de::DeserializeSeed;
+        match self.s {
+            S::Union(bs) => match bs.iter().find(|b| !matches!(b, S::Null)) {
+                Some(other) => GSeed { s: other, env: self.env }.deserialize(d),
+                None => <Dyn as serde::Deserialize>::deserialize(d).map(|_| ()),
+            },
+            _ => <Dyn as serde::Deserialize>::deserialize(d).map(|_| ()),
+        }
+    }
+    fn visit_seq<A: serde::de::SeqAccess<'de>>(self, mut a: A) -> Result<(), A::Error> {
+        match self.s {
+            S::Array(items) => while a.next_element_seed(GSeed { s: items, env: self.env })?.is_some() {},
+            S::Record { fields, .. } => {
+                for f in fields {
+                    if a.next_element_seed(GSeed { s: &f.ty, env: self.env })?.is_none() {
+                        break;
+                    }
+                }
+            }
+            _ => while a.next_element::<Dyn>()?.is_some() {},
+        }
+        Ok(())
+    }
+    fn visit_map<A: serde::de::MapAccess<'de>>(self, mut a: A) -> Result<(), A::Error> {
+        match self.s {
+            S::Map(values) => {
+                while a.next_key::<Dyn>()?.is_some() {
+                    a.next_value_seed(GSeed { s: values, env: self.env })?;
+                }
+            }
+            S::Record { fields, .. } => {
+                let mut i = 0;
+                while a.next_key::<Dyn>()?.is_some() {
+                    match fields.get(i) {
+                        Some(f) => a.next_value_seed(GSeed { s: &f.ty, env: self.env })?,
+                        None => a.next_value::<Dyn>().map(|_| ())?,
+                    }
+                    i += 1;
+                }
+            }
+            _ => while a.next_entry::<Dyn, Dyn>()?.is_some() {},
+        }
+        Ok(())
+    }
+}
+
+/// Whether `s` has a two-branch nullable union anywhere (the only place `Guided` differs from `Dyn`).
+fn has_option(s: &S, env: &crate::ast::Env, depth: usize) -> bool {
+    if depth > 6 {
+        return false;
+    }
+    match s {
+        S::Union(bs) => (bs.len() == 2 && bs.iter().any(|b| matches!(b, S::Null))) || bs.iter().any(|b| has_option(b, env, depth + 1)),
+        S::Array(x) | S::Map(x) | S::Logical(_, x) => has_option(x, env, depth + 1),
+        S::Record { fields, .. } => fields.iter().any(|f| has_option(&f.ty, env, depth + 1)),
+        S::Ref(n) => env.get(n).is_some_and(|t| has_option(t, env, depth + 1)),
+        _ => false,
+    }
+}
+
+/// Bytes the schema-aware deserializer consumes for one datum when the target asks for `Option`s.
+fn guided_decode(sc: &Sc, schema: &apache_avro::Schema, bytes: &[u8]) -> Result<usize, String> {
+    GUIDE.with(|g| *g.borrow_mut() = Some((sc.s.clone(), sc.env.clone())));
+    match guarded(|| {
+        let r = apache_avro::reader::datum::GenericDatumReader::builder(schema).build()?;
+        let mut cur: &[u8] = bytes;
+        r.read_deser::<Guided>(&mut cur)?;
+        Ok::<_, apache_avro::Error>(bytes.len() - cur.len())
+    }) {
+        Ok(Ok(n)) => Ok(n),
+        Ok(Err(e)) => Err(format!("error: {e}")),
+        Err(p) => Err(format!("panic: {p}")),
+    }
+}
+
 /// Longest byte-universe string the deserializer clause is applied to (3 quick, 4 thorough).
 static DESER_BU_LEN: std::sync::atomic::AtomicUsize = std::sync::atomic::AtomicUsize::new(3);
 
@@ -416,6 +550,33 @@ fn judge(sc: &Sc, schema: &apache_avro::Schema, bytes: &[u8], origin: &str, vi: 
             Ok(Ok(()))
         )
     };
+    // a fourth target: one shaped like the user's Rust type, asking for an `Option` wherever the schema has a
+    // two-branch nullable union. It is the same deserializer over the same bytes: what it accepts, the
+    // target that follows the schema through deserialize_any accepts too, with the same length.
+    if let Some(de) = &de {
+        if has_option(&sc.s, &sc.env, 0) {
+            st.transitions += 1;
+            let gd = guided_decode(sc, schema, bytes);
+            let failed = match (&gd, de) {
+                (Ok(_), Err(e)) if !e.starts_with("panic") => Some("the schema-aware deserializer accepts for an Option-shaped target bytes it rejects for a target that follows the schema"),
+                (Ok(a), Ok(b)) if a != b => Some("the schema-aware deserializer consumes different lengths for an Option-shaped target and a target that follows the schema"),
+                (Err(e), Ok(_)) if !e.starts_with("panic") => Some("the schema-aware deserializer rejects for an Option-shaped target a datum it accepts for a target that follows the schema"),
+                _ => None,
+            };
+            match failed {
+                None => st.outcome(if gd.is_ok() { "deser-option-target-ok-agrees" } else { "deser-option-target-err" }),
+                Some(clause) => {
+                    st.outcome("violation:decoders-disagree");
+                    st.violate(
+                        2u64 << 60 | (sc.idx as u64) << 32 | vi as u64,
+                        clause,
+                        json!({"schema": sc.json, "bytes": hex(bytes), "origin": origin, "generic_decoder": ev::trunc(&format!("{lib:?}"), 200), "deserializer_any_target": format!("{de:?}"), "deserializer_option_target": format!("{gd:?}")}),
+                        json!({"schema_idx": sc.idx, "value_idx": vi, "schema": sc.json, "bytes": hex(bytes)}),
+                    );
+                }
+            }
+        }
+    }
     if lib.is_err() && !matches!(de, Some(Ok(_))) && !ignored_ok {
         // both decoders reject: nothing to judge (and the reference decoder is not run on hostile counts)
         if de.is_some() {
